@@ -206,6 +206,13 @@ func (c *Conn) waitCloseHandshake() error {
 	}
 	defer c.readMu.unlock()
 
+	// Another reader may have received the peer's close frame and released
+	// readMu to close the connection but not have closed it yet. Reading now
+	// would hit the end of the transport and fail a completed handshake.
+	if c.closeReceived != nil {
+		return c.closeReceived
+	}
+
 	for i := int64(0); i < c.msgReader.payloadLength; i++ {
 		_, err := c.br.ReadByte()
 		if err != nil {
